@@ -141,7 +141,7 @@ def decodeProt (j : Json) : D ProtDesc := do
   pure { name := ← asStr (← getReq kvs "name"), type := ty,
          dataW := ← asNat (← getReq kvs "data_width"), addrW := ← asNat (← getReq kvs "addr_width"),
          idW := ← asNat (← getReq kvs "id_width"), userW := ← asNat (← getReq kvs "user_width"),
-         typePrefix := typePrefix }
+         typePrefix := typePrefix, direction := ← optM (getOpt kvs "direction") asStr }
 
 def decodeEp (j : Json) : D EpDesc := do
   let kvs ← objKeys j
